@@ -94,10 +94,13 @@ pub fn make_tz(spec: &Spec) -> TimeZone {
             let i = i as usize % DB_NAMES.len();
             TimeZone::tzif(DB_NAMES[i], &db_zone_bytes(i)).unwrap()
         }
-        Spec::Static(i) => match i % N_STATIC {
+        Spec::Static(i) => match i % (2 * N_STATIC) {
             0 => S0.clone(),
             1 => S1.clone(),
-            _ => S2.clone(),
+            2 => S2.clone(),
+            3 => T0.clone(),
+            4 => T1.clone(),
+            _ => T2.clone(),
         },
     }
 }
